@@ -104,11 +104,14 @@ def _body_wo_doc(node):
 def _eligible(kind, owner, node):
     if isinstance(node, ast.AsyncFunctionDef):
         return None
-    static = False
+    static = classm = False
     for d in node.decorator_list:
         if isinstance(d, ast.Name) and d.id == 'staticmethod' and \
                 kind == 'method':
             static = True
+        elif isinstance(d, ast.Name) and d.id == 'classmethod' and \
+                kind == 'method' and not static:
+            classm = True
         else:
             return None
     a = node.args
@@ -137,6 +140,10 @@ def _eligible(kind, owner, node):
     if n_stmts > MAX_STMTS or not _body_wo_doc(node):
         return None
     params = [x.arg for x in a.args]
+    if kind == 'method' and classm:
+        if not params or params[0] != 'cls':
+            return None
+        return 'classmethod'
     if kind == 'method' and not static:
         if not params or params[0] != 'self':
             return None
@@ -177,7 +184,7 @@ def _refs_function(trees, path, node):
     return calls, True
 
 
-def _refs_method(trees, path, owner, node, static):
+def _refs_method(trees, path, owner, node, static, classm=False):
     name = node.name
     inside = {id(n) for n in ast.walk(owner)}
     calls = []
@@ -197,6 +204,23 @@ def _refs_method(trees, path, owner, node, static):
             if isinstance(n, ast.Constant) and n.value == name:
                 return [], False           # getattr(self, 'name') and such
     recv = ('self', owner.name) if static else ('self',)
+    if classm:
+        # `cls.helper(...)` written inside a classmethod of the same class:
+        # the helper's cls is the caller's cls
+        recv = ('cls',)
+        cls_scopes = set()
+        for s in owner.body:
+            if isinstance(s, ast.FunctionDef) and any(
+                    isinstance(d, ast.Name) and d.id == 'classmethod'
+                    for d in s.decorator_list) and s.args.args and \
+                    s.args.args[0].arg == 'cls' and not any(
+                        isinstance(x, ast.Name) and x.id == 'cls' and
+                        isinstance(x.ctx, (ast.Store, ast.Del))
+                        for x in ast.walk(s)) and sum(
+                        1 for x in ast.walk(s) if isinstance(x, ast.arg)
+                        and x.arg == 'cls') == 1:
+                cls_scopes |= {id(x) for x in ast.walk(s)}
+        inside = inside & cls_scopes
     for p, tree in trees.items():
         for n in ast.walk(tree):
             if isinstance(n, ast.Attribute) and n.attr == name:
@@ -242,6 +266,10 @@ def _dup_safe_arg(e):
         if isinstance(e.func, ast.Attribute) and e.func.attr == 'get':
             return _dup_safe_arg(e.func.value)
         if isinstance(e.func, ast.Name) and e.func.id in _PURE_FUNCS:
+            return True
+        if isinstance(e.func, ast.Attribute) and \
+                isinstance(e.func.value, ast.Name) and \
+                e.func.value.id == 're' and e.func.attr == 'compile':
             return True
     if isinstance(e, (ast.Tuple, ast.List)):
         return all(_dup_safe_arg(x) for x in e.elts)
@@ -838,10 +866,10 @@ class Inliner:
             calls, ok = _refs_function(self.trees, path, node)
         else:
             calls, ok = _refs_method(self.trees, path, owner, node,
-                                     kind == 'static')
+                                     kind == 'static', kind == 'classmethod')
         if not ok or not calls:
             return False
-        bind_kind = 'method' if kind == 'method' else 'func'
+        bind_kind = 'method' if kind in ('method', 'classmethod') else 'func'
         tree = self.trees[path]
         expr_helper = _as_expression(_body_wo_doc(node)) is not None
         decides = any(isinstance(st, ast.If) for st in _body_wo_doc(node))
@@ -1582,9 +1610,156 @@ class _Desugar(ast.NodeTransformer):
             value=not hit))))]
 
 
+def _stable_path(e):
+    """A constant or an access path (names, attributes, constant
+    subscripts): evaluating it twice gives the same value and no effect."""
+    if isinstance(e, ast.Constant):
+        return True
+    if isinstance(e, ast.Name):
+        return True
+    if isinstance(e, ast.Attribute):
+        return _stable_path(e.value)
+    if isinstance(e, ast.Subscript):
+        return _stable_path(e.value) and isinstance(e.slice, ast.Constant)
+    return False
+
+
+class _Quantifiers(ast.NodeTransformer):
+    """any(C for T in I if F) / all(...) where I is a literal tuple of at
+    most 6 stable elements, a local bound once to one, or a zip of those:
+        any -> (F1 and C1) or (F2 and C2) ...
+        all -> ((not F1) or C1) and ...
+    A quantifier over a fixed handful of values is a boolean expression
+    written compactly; the rules read the expression.  Also
+    `re.compile(P).match(X)` (after a compiled pattern was written back to
+    its use) is `re.match(P, X)`."""
+    def __init__(self):
+        self.count = 0
+        self.tuples = [{}]
+
+    def _scope(self, node):
+        stores = {}
+        for x in ast.walk(node):
+            if isinstance(x, ast.Name) and isinstance(
+                    x.ctx, (ast.Store, ast.Del)):
+                stores[x.id] = stores.get(x.id, 0) + 1
+            elif isinstance(x, ast.arg):
+                stores[x.arg] = stores.get(x.arg, 0) + 2
+        local = {}
+        for x in ast.walk(node):
+            if isinstance(x, ast.Assign) and len(x.targets) == 1 and \
+                    isinstance(x.targets[0], ast.Name) and \
+                    stores.get(x.targets[0].id) == 1 and \
+                    isinstance(x.value, ast.Tuple) and \
+                    1 <= len(x.value.elts) <= 6 and all(
+                        _stable_path(e) and all(
+                            stores.get(n.id, 0) <= 1 for n in ast.walk(e)
+                            if isinstance(n, ast.Name))
+                        for e in x.value.elts):
+                local[x.targets[0].id] = x.value
+        self.tuples.append(local)
+        self.generic_visit(node)
+        self.tuples.pop()
+        return node
+
+    visit_FunctionDef = _scope
+    visit_AsyncFunctionDef = _scope
+
+    def _elements(self, it):
+        if isinstance(it, ast.Name):
+            it = self.tuples[-1].get(it.id)
+        if isinstance(it, (ast.Tuple, ast.List)) and \
+                1 <= len(it.elts) <= 6 and all(_stable_path(e)
+                                               for e in it.elts):
+            return list(it.elts)
+        if isinstance(it, ast.Call) and isinstance(it.func, ast.Name) and \
+                it.func.id == 'zip' and it.args and not it.keywords:
+            cols = [self._elements(a) for a in it.args]
+            if all(c is not None for c in cols) and \
+                    len({len(c) for c in cols}) == 1:
+                return [ast.Tuple(elts=list(row), ctx=ast.Load())
+                        for row in zip(*cols)]
+        return None
+
+    def visit_Call(self, node):
+        self.generic_visit(node)
+        f = node.func
+        if isinstance(f, ast.Attribute) and isinstance(f.value, ast.Call) \
+                and isinstance(f.value.func, ast.Attribute) and \
+                isinstance(f.value.func.value, ast.Name) and \
+                f.value.func.value.id == 're' and \
+                f.value.func.attr == 'compile' and \
+                len(f.value.args) == 1 and not f.value.keywords and \
+                not node.keywords and (
+                    (f.attr in ('match', 'search', 'fullmatch', 'findall',
+                                'finditer', 'split') and
+                     len(node.args) == 1) or
+                    (f.attr in ('sub', 'subn') and
+                     2 <= len(node.args) <= 3)):
+            self.count += 1
+            return ast.copy_location(ast.Call(
+                func=ast.Attribute(value=ast.Name(id='re', ctx=ast.Load()),
+                                   attr=f.attr, ctx=ast.Load()),
+                args=[f.value.args[0]] + node.args, keywords=[]), node)
+        if not (isinstance(f, ast.Name) and f.id in ('any', 'all') and
+                len(node.args) == 1 and not node.keywords and
+                isinstance(node.args[0], (ast.GeneratorExp, ast.ListComp))
+                and len(node.args[0].generators) == 1 and
+                not node.args[0].generators[0].is_async):
+            return node
+        g = node.args[0].generators[0]
+        elements = self._elements(g.iter)
+        if elements is None:
+            return node
+        names = [n for n in ast.walk(g.target)]
+        if not all(isinstance(n, (ast.Name, ast.Tuple)) for n in names
+                   if not isinstance(n, ast.expr_context)):
+            return node
+        terms = []
+        for el in elements:
+            env = {}
+            if not _bind_target(g.target, el, env):
+                return node
+            parts = [_Subst(env, {}).visit(copy.deepcopy(c))
+                     for c in list(g.ifs)]
+            body = _Subst(env, {}).visit(copy.deepcopy(node.args[0].elt))
+            if f.id == 'any':
+                vals = parts + [body]
+                terms.append(vals[0] if len(vals) == 1 else
+                             ast.BoolOp(op=ast.And(), values=vals))
+            else:
+                vals = [ast.UnaryOp(op=ast.Not(), operand=p)
+                        for p in parts] + [body]
+                terms.append(vals[0] if len(vals) == 1 else
+                             ast.BoolOp(op=ast.Or(), values=vals))
+        self.count += 1
+        out = terms[0] if len(terms) == 1 else ast.BoolOp(
+            op=ast.Or() if f.id == 'any' else ast.And(), values=terms)
+        if len(terms) == 1:
+            out = ast.Call(func=ast.Name(id='bool', ctx=ast.Load()),
+                           args=[out], keywords=[])
+        return ast.copy_location(out, node)
+
+
+def _bind_target(target, value, env):
+    if isinstance(target, ast.Name):
+        env[target.id] = value
+        return True
+    if isinstance(target, ast.Tuple) and isinstance(value, ast.Tuple) and \
+            len(target.elts) == len(value.elts):
+        return all(_bind_target(t, v, env)
+                   for t, v in zip(target.elts, value.elts))
+    return False
+
+
 def desugar(trees):
     n = 0
     for t in trees.values():
+        q = _Quantifiers()
+        q.visit(t)
+        if q.count:
+            ast.fix_missing_locations(t)
+        n += q.count
         # module-level names bound exactly once to a literal tuple / list
         bound = {}
         for st in t.body:
@@ -1734,6 +1909,137 @@ def is_replace_if_present(e):
         ast.dump(e.body.func.value) == ast.dump(e.orelse)
 
 
+class _Thread(ast.NodeTransformer):
+    """    if c: r = False                     if c: B
+           else: (stmts; r = E)        ->      else: (stmts; if E: A else: B)
+           if r: A  else: B
+    when r is a local stored only at the ends of the first statement and
+    read only by the second: the decision is threaded to where it is made
+    (what a helper inlined as statements leaves behind)."""
+    LIMIT = 250
+
+    def __init__(self):
+        self.count = 0
+        self.uses = [{}]
+
+    def _scope(self, node):
+        loads, stores = {}, {}
+        for x in ast.walk(node):
+            if isinstance(x, ast.Name):
+                d = loads if isinstance(x.ctx, ast.Load) else stores
+                d[x.id] = d.get(x.id, 0) + 1
+            elif isinstance(x, (ast.Global, ast.Nonlocal)):
+                for nm in x.names:
+                    loads[nm] = loads.get(nm, 0) + 9
+        for a in ast.walk(node.args):
+            if isinstance(a, ast.arg):
+                stores[a.arg] = stores.get(a.arg, 0) + 9
+        self.uses.append((loads, stores))
+        self.generic_visit(node)
+        self.uses.pop()
+        return node
+
+    visit_FunctionDef = _scope
+    visit_AsyncFunctionDef = _scope
+
+    def generic_visit(self, node):
+        super().generic_visit(node)
+        if len(self.uses) > 1:
+            for name in _BLOCKS:
+                lst = getattr(node, name, None)
+                if isinstance(lst, list) and lst and \
+                        isinstance(lst[0], ast.stmt):
+                    setattr(node, name, self._block(lst))
+            for h in getattr(node, 'handlers', []) or []:
+                h.body = self._block(h.body)
+        return node
+
+    def _leaves(self, st, r):
+        """The `r = X` statements that end every path of st, or None."""
+        if isinstance(st, ast.Assign) and len(st.targets) == 1 and \
+                isinstance(st.targets[0], ast.Name) and \
+                st.targets[0].id == r:
+            return [st]
+        if isinstance(st, ast.If) and st.body and st.orelse:
+            a = self._leaves(st.body[-1], r)
+            b = self._leaves(st.orelse[-1], r)
+            if a is not None and b is not None:
+                return a + b
+        return None
+
+    def _block(self, stmts):
+        out = list(stmts)
+        i = 0
+        while i + 1 < len(out):
+            first, second = out[i], out[i + 1]
+            i += 1
+            if not isinstance(second, ast.If):
+                continue
+            t, neg = second.test, False
+            if isinstance(t, ast.UnaryOp) and isinstance(t.op, ast.Not):
+                t, neg = t.operand, True
+            if not isinstance(t, ast.Name):
+                continue
+            r = t.id
+            loads, stores = self.uses[-1]
+            leaves = self._leaves(first, r)
+            if leaves is None or loads.get(r) != 1 or \
+                    stores.get(r) != len(leaves) or len(leaves) > 4:
+                continue
+            if any(isinstance(n, ast.Name) and n.id == r
+                   for lf in leaves for n in ast.walk(lf.value)):
+                continue
+            size = sum(1 for b in second.body + second.orelse
+                       for _ in ast.walk(b))
+            if size * len(leaves) > self.LIMIT and len(leaves) > 1:
+                continue
+            yes, no = (second.orelse, second.body) if neg else \
+                (second.body, second.orelse)
+            repl = {}
+            for lf in leaves:
+                v = lf.value
+                if isinstance(v, ast.Constant):
+                    new = copy.deepcopy(yes if v.value else no)
+                    if not new:
+                        new = [ast.copy_location(ast.Pass(), lf)]
+                else:
+                    body, orelse = copy.deepcopy(yes), copy.deepcopy(no)
+                    test = v
+                    if not body:
+                        body, orelse = orelse, []
+                        test = ast.UnaryOp(op=ast.Not(), operand=v)
+                    new = [ast.copy_location(ast.If(
+                        test=test, body=body, orelse=orelse), second)]
+                repl[id(lf)] = new
+            out[i - 1] = self._replace(first, repl)
+            flat = out[i - 1] if isinstance(out[i - 1], list) \
+                else [out[i - 1]]
+            out[i - 1:i + 1] = flat
+            self.count += 1
+            i = max(i - 1, 0)
+        return out
+
+    def _replace(self, st, repl):
+        if id(st) in repl:
+            return repl[id(st)]
+        for name in ('body', 'orelse'):
+            blk = getattr(st, name)
+            last = self._replace(blk[-1], repl)
+            blk[-1:] = last if isinstance(last, list) else [last]
+        return st
+
+
+def thread_decisions(trees):
+    n = 0
+    for t in trees.values():
+        th = _Thread()
+        th.visit(t)
+        if th.count:
+            ast.fix_missing_locations(t)
+        n += th.count
+    return n
+
+
 def normalise(trees, known=None):
     """Inline the helpers that are not in the census; mutates `trees`
     ({path: ast.Module}); returns the log [(qname, sites, removed)]."""
@@ -1742,6 +2048,13 @@ def normalise(trees, known=None):
     clog = inline_new_constants(trees, known)
     n = desugar(trees)
     log = clog + Inliner(trees, known).run()
+    for t in trees.values():
+        q = _Quantifiers()
+        q.visit(t)
+        if q.count:
+            ast.fix_missing_locations(t)
+        n += q.count
+    n += thread_decisions(trees)
     if n:
         log.append(('<return any/all as loop, calls through a local>', n, False))
     return log
